@@ -270,7 +270,7 @@ def _migration_rows(ck: Checker, fn: Func, g, at, rows_expr: ast.expr, ip: int, 
                     return False, f"worker {worker.qual} returns {norm(v)}, not a (path, oid) row"
                 if norm(v.elts[ip]) != inp:
                     return False, f"worker {worker.qual}: row column {ip} is {norm(v.elts[ip])}, not its input `{inp}`"
-                hcalls = [c for c in walk_own(worker.node) if isinstance(c, ast.Call) and c.args and norm(c.args[0]) == inp and call_name(c) not in ("endswith", "startswith")]
+                hcalls = [c for c in walk_own(worker.node) if isinstance(c, ast.Call) and any(norm(a_) == inp for a_ in list(c.args) + [k.value for k in c.keywords]) and call_name(c) not in ("endswith", "startswith")]
                 if not flows_from_calls(gw, r, v.elts[io], hcalls):
                     return False, f"worker {worker.qual}: row column {io} ({norm(v.elts[io])}) is not computed from `{inp}`"
             return True, f"rows are (input, hash-of-input) pairs returned by {worker.qual} and unzipped together"
@@ -364,6 +364,8 @@ def _unordered(ck: Checker) -> None:
                         continue
                     if isinstance(pu, ast.Call) and is_method_call(pu, "items", "update"):
                         continue
+                    if isinstance(pu, (ast.For, ast.comprehension)) and pu.iter is u and isinstance(pu.target, (ast.Tuple, ast.List)):
+                        continue  # consumed row by row: each row keeps its own (key, value) pairing
                     bad.append(norm(pu)[:60])
                 ok, why = not bad, "unordered rows are only unzipped together / used as a mapping" if not bad else f"unordered results are used positionally: {bad}"
             ck.require(ok, "C01.unordered", fn, c, why, f"results of imap_unordered arrive in completion order but are {why}: hashes get attached to the wrong paths")
